@@ -112,7 +112,7 @@ class RunGroup:
         os.makedirs(out)
         nshards = nshards or NPROC
         if only is not None:
-            only = sorted(only)
+            only = list(only)  # order is kept: callers sort by cost so shards are balanced
             if not only:
                 return [], []
             nshards = min(nshards, len(only))
